@@ -623,7 +623,7 @@ type seed struct {
 }
 
 func genOpts(i int, sec string) gen.Opts {
-	o := gen.Opts{SECs: []string{sec}, MaxBatches: 2, MaxEntries: 3}
+	o := gen.Opts{SECs: []string{sec}, MaxBatches: 2, MaxEntries: 3, IATCorrections: true}
 	switch i % 4 {
 	case 1:
 		o.Categories = gen.AllCategories()
@@ -733,6 +733,22 @@ func tweak(r *gen.Rand, f *ach.File) []string {
 			f.Header.ImmediateOrigin = pad
 		}
 		notes = append(notes, fmt.Sprintf("Header.ImmediateDestination=%q", f.Header.ImmediateDestination), fmt.Sprintf("Header.ImmediateOrigin=%q", f.Header.ImmediateOrigin))
+	}
+	// entries whose Category was not (re)derived after their addenda were attached: a caller that builds entries by hand
+	// or decodes a batch from JSON has them
+	if r.Chance(1, 3) {
+		cat := gen.Pick(r, []string{"", ach.CategoryForward, ach.CategoryReturn, ach.CategoryNOC})
+		for _, b := range f.Batches {
+			for _, e := range b.GetEntries() {
+				e.Category = cat
+			}
+		}
+		for i := range f.IATBatches {
+			for _, e := range f.IATBatches[i].GetEntries() {
+				e.Category = cat
+			}
+		}
+		notes = append(notes, fmt.Sprintf("every entry's Category=%q", cat))
 	}
 	var fields []namedField
 	stringFields(reflect.ValueOf(f), "", &fields, 0)
